@@ -190,7 +190,7 @@ def run_line(ctx, case):
   ok = compare_seq(
     ctx, case, "line", got, exc, hit, want, False,
     lambda i, g, w: close(ctx, "line", g, w,
-                          float(scale * (1 + abs(i / den)))))
+                          float(scale * (1 + (abs(i / den) if den else 0)))))
   if ok:
     ctx.count("line:samples", n)
   return True
